@@ -505,7 +505,9 @@ TickSpec(gg, r) ==
                          !.lossy = @ \/ r.evq >= MaxEventQueue,
                          !.stat = [h \in 0..gg.NP-1 |-> r.st[h+1]]]
   IN AddViol([gg EXCEPT !.pr[p] = pe2, !.stats.specAdv = @ + acc.nA, !.stats.ticks = @ + 1],
-             acc.vs \o endV \o When(r.evq > MaxEventQueue, V("C18", r.n, "event-queue-over-100", <<p, r.evq>>)))
+             acc.vs \o endV \o When(r.evq > MaxEventQueue, V("C18", r.n, "event-queue-over-100", <<p, r.evq>>))
+             \* frames_behind_host() asserts last_recv_frame >= current_frame (harness logs -1000 if it panicked)
+             \o When(Has(r, "fbh") /\ r.fbh < 0, V("PANIC", r.n, "P:frames_behind_host", <<p, r.fbh>>)))
 
 ---------------------------------------------------------------------------
 \* an `ev` line: the user drains the event queue
